@@ -225,8 +225,20 @@ def oracle_entry(st):
 
 
 def py_nonzero_mantissa(st):
-    """The text test of the underflow guard (80b6126) as repair.py writes it (source text pinned in Pins_Repair.v)."""
-    return any(ch in "123456789" for ch in st.lower().split("e")[0])
+    """The text test of the underflow guard (80b6126, 0b7941a) as repair.py writes it (source text pinned in Pins_Repair.v)."""
+    return any(ch.isdecimal() and int(ch) != 0 for ch in st.lower().split("e")[0])
+
+
+def in_scope_text(t):
+    """Model scope: ASCII plus non-ASCII DECIMAL DIGITS (no case, not whitespace: str.lower / str.strip treat them as the
+    model's ASCII lower/strip do; their decimal value is handed to the model as the digit oracle)."""
+    return all(ch.isascii() or ch.isdecimal() for ch in t)
+
+
+def tok_digits(texts):
+    """Digit oracle of one case: every non-ASCII character with str.isdecimal() -> int(ch), computed by the real Python."""
+    ds = sorted({ch for t in texts for ch in t if not ch.isascii() and ch.isdecimal()})
+    return " ".join([f"G {len(ds)}"] + [f"{ord(ch)} {int(ch)}" for ch in ds])
 
 
 ORACLE_SEEN = set()
@@ -238,11 +250,12 @@ def tok_oracle(cands):
 
 
 def model_line(fix, schema, nodes):
-    return f"repair {1 if fix else 0} {tok_schema(schema)} {tok_oracle(py_strip_candidates(nodes, schema))} {tok_doc(nodes)}"
+    cands = py_strip_candidates(nodes, schema)
+    return f"repair {1 if fix else 0} {tok_schema(schema)} {tok_oracle(cands)} {tok_digits(cands)} {tok_doc(nodes)}"
 
 
 def is_ascii_case(nodes, schema):
-    """Model scope: str.lower / str.strip are modelled for ASCII only."""
+    """Model scope: str.lower / str.strip are modelled for ASCII; non-ASCII decimal digits are in scope (in_scope_text)."""
     A = _imports()
     from octave_mcp.core.constraints import EnumConstraint
     ok = True
@@ -250,7 +263,7 @@ def is_ascii_case(nodes, schema):
     def walk(n):
         nonlocal ok
         if isinstance(n, A.Assignment):
-            if isinstance(n.value, str) and not n.value.isascii():
+            if isinstance(n.value, str) and not in_scope_text(n.value):
                 ok = False
         elif isinstance(n, (A.Block, A.Section)):
             for c in n.children:
@@ -261,7 +274,7 @@ def is_ascii_case(nodes, schema):
         for fd in schema.fields.values():
             if fd.pattern is not None and fd.pattern.constraints is not None:
                 for c in fd.pattern.constraints.constraints:
-                    if isinstance(c, EnumConstraint) and not all(a.isascii() for a in c.allowed_values):
+                    if isinstance(c, EnumConstraint) and not all(in_scope_text(a) for a in c.allowed_values):
                         ok = False
     return ok
 
@@ -461,10 +474,8 @@ def check_property(src, res, log, schema, fix):
                     ex = exact_value_of_text(before.strip())
                     if ex is not None:
                         if newv == 0 and ex != 0:
-                            # 80b6126 rejects this when the mantissa has an ASCII digit 1..9; what is left is a
-                            # literal whose non-zero mantissa digits are all non-ASCII decimal digits
-                            cl = None if py_nonzero_mantissa(before.strip()) else "underflow-nonascii"
-                            out.append((f"{a.key}: non-zero literal {before!r} became {newv!r}", cl))
+                            # rejected since 80b6126 (ASCII digits) / 0b7941a (every decimal digit): never attributed
+                            out.append((f"{a.key}: non-zero literal {before!r} became {newv!r}", None))
                         elif isinstance(newv, int) and ex != newv:
                             out.append((f"{a.key}: integer text {before!r} became {newv!r}", None))
                         elif isinstance(newv, float) and newv != 0 and ex != 0:
@@ -511,8 +522,9 @@ UNDERFLOW_TEXTS = ["1e-400", "-1e-400", "2e-324", "-2e-324", "4.9e-325", "0.1e-3
 # ... zero in every notation float()/int() accepts (must still be coerced) ...
 ZERO_TEXTS = ["0", "-0", "+0", "00", "0_0", "0.0", "-0.0", "+0.0", ".0", "0.", "0.000", "-.0", "0e0", "0e5", "0E5", "-0e5",
               "0.0e-999", "-0.0e-999", "0e-400", "0.0E+999", " 0e5\t", "0_0.0_0e1_0", "000.000e000"]
-# ... the same two classes written with non-ASCII decimal digits (finding C11-underflow-nonascii-digit) ...
-NONASCII_NUM_TEXTS = ["\uff11e-400", "-\u0664e-400", "0.0\uff11e-400", "\u0660e5", "\uff10.\uff10", "\uff11e-3",
+# ... the same two classes written with non-ASCII decimal digits (must stay text / be coerced since 0b7941a) ...
+NONASCII_NUM_TEXTS = ["\uff11e-400", "-\u0664e-400", "0.0\uff11e-400", "\u0660e5", "\uff10.\uff10", "\uff11e-3", "\uff10e5", "0.0\u0664E-400",
+                      "\u0969.\u0966e-350", " \uff10\uff10.\uff10e-9 ", "\U0001d7cfe-400", "\uff10\uff10", "\u0661\u0662e-330",
                       "\uff11\uff12\uff13\uff14\uff15\uff16\uff17\uff18\uff19\uff10\uff11\uff12\uff13\uff14\uff15\uff16\uff17\uff18\uff19"]
 # ... and integer texts that are not representable as a double: the repaired value must be the EXACT integer
 BIGINT_TEXTS = ["9007199254740993", "-9007199254740993", "9007199254740992", "-12345678901234567891", "18446744073709551617",
@@ -839,9 +851,7 @@ def run(ctx):
 
 def classify(ctx, what, clause, case, path):
     fid = None
-    if clause == "underflow-nonascii":
-        fid = "C11-underflow-nonascii-digit"
-    elif clause == "cli-no-log":
+    if clause == "cli-no-log":
         fid = "C11-cli-fix-no-log"
     ctx.hist("property_failures", fid or "unattributed")
     case = dict(case)
@@ -871,18 +881,7 @@ def _run(ctx, root, have_model, parse):
     for fid, f in ctx.known.items():
         w = f["witness"]
         try:
-            if fid == "C11-underflow-nonascii-digit":
-                from octave_mcp.core.constraints import ConstraintChain, TypeConstraint
-                from octave_mcp.core.holographic import HolographicPattern
-                from octave_mcp.core.schema_extractor import FieldDefinition, SchemaDefinition
-                sd = SchemaDefinition(name="W", fields={w["field"]: FieldDefinition(
-                    name=w["field"], pattern=HolographicPattern(example="1", constraints=ConstraintChain(
-                        [TypeConstraint(expected_type="NUMBER")]), target=None))})
-                src = [A.Assignment(key=w["field"], value=w["value"])]
-                res, log = impl_repair(src, sd, True)
-                cl = [c for _, c in check_property(src, res, log, sd, True)]
-                ctx.finding_witness(fid, cl == ["underflow-nonascii"])
-            elif fid == "C11-cli-fix-no-log":
+            if fid == "C11-cli-fix-no-log":
                 still = replay_cli_witness(root, w)
                 ctx.finding_witness(fid, still)
         except Exception as e:  # noqa
@@ -997,7 +996,7 @@ def _run(ctx, root, have_model, parse):
                 try:
                     in_model = is_ascii_case(nodes, sd)
                     if not in_model:
-                        ctx.hist("model_scope", "out_of_model(non-ascii)")
+                        ctx.hist("model_scope", "out_of_model(non-ascii other than decimal digits)")
                         continue
                     ln = model_line(fix, sd, nodes)
                     exp = tok_doc(res) + " # " + tok_entries(log)
@@ -1157,19 +1156,20 @@ def _run(ctx, root, have_model, parse):
                 classify(ctx, "REPAIR entry logged without a change", None, case, "octave_write(META)")
     # -------- the oracle tables of this run satisfy the hypotheses of C11_repair_tbl_lossless_text; mantissa test -----
     if have_model:
-        ents = sorted(t for t in ORACLE_SEEN if t.isascii() and t)
-        t_lines = ["tblok " + tok_oracle(ents[i:i + 300]) for i in range(0, len(ents), 300)]
+        ents = sorted(t for t in ORACLE_SEEN if in_scope_text(t) and t)
+        t_lines = ["tblok " + tok_oracle(ents[i:i + 300]) + " " + tok_digits(ents[i:i + 300]) for i in range(0, len(ents), 300)]
         for ln, got in zip(t_lines, run_driver("rep", t_lines) if t_lines else []):
             ctx.count()
             if got != "1 1":
                 ctx.obligation_failure("oracle-hypotheses", f"tbl_float_consistent/tbl_int_zero_ok = {got} on a table of this run: {ln[:300]}")
-        m_l = ["mant " + enc_str(t) for t in ents]
+        m_l = ["mant " + tok_digits([t]) + " " + enc_str(t) for t in ents]
         for t, got in zip(ents, run_driver("rep", m_l) if m_l else []):
             ctx.count()
             exp = ("1" if py_nonzero_mantissa(t) else "0") + " " + enc_str(t.lower().split("e")[0])
             if got != exp:
                 ctx.correspondence_failure({"text": t, "impl": exp, "model": got}, "mantissa test: model and Python expression differ")
         ctx.extra["oracle_texts_checked"] = len(ents)
+        ctx.extra["oracle_texts_with_nonascii_digits"] = sum(1 for t in ents if not t.isascii())
 
 
 def replay_corpus_case(ctx, root, c, parse):
